@@ -62,6 +62,7 @@ struct Profile {
     bool allow_inline{false};   // some cases store inline (uintptr_t) values
     bool force_templates{false}; // enumeration stages: always build the scenario from the race templates
     bool cursor_skip_reads{true}; // keys passed over by a cursor count as 'absent' pseudo-reads (C10's no-skip clause)
+    bool conflict_bias{true};     // a third of the cases run with the conflict-directed overlay of the scheduler
 };
 
 inline Profile make_profile(const std::string& prop, const std::string& tier) {
@@ -185,12 +186,13 @@ struct Scenario {
     std::vector<std::vector<Op>> threads;
     std::uint32_t max_id{0};
     std::string family;
+    bool conflict_bias{false}; // run under the conflict-directed overlay
 
     std::string text() const {
         std::ostringstream ss;
         ss << "shape=" << family << " prefix=\"" << show(prefix) << "\" init_keys=" << init_keys.size() << (emptied ? " (all removed again)" : "")
            << (pre_removed.empty() ? "" : " (+" + std::to_string(pre_removed.size()) + " inserted and removed again)")
-           << " hot=[";
+           << (conflict_bias ? " conflict-directed" : "") << " hot=[";
         for (auto& h : hot) { ss << "\"" << show(h) << "\" "; }
         ss << "]\n";
         for (std::size_t t = 0; t < threads.size(); ++t) {
@@ -264,10 +266,26 @@ inline bool start_tuple_conflict(const Scenario& s, const Op& o, const std::stri
 inline Scenario decode(Chooser& c, const Profile& pf, vf::Stats& st, bool record) {
     Scenario s;
     // ---- shape
-    unsigned fam = static_cast<unsigned>(c.weighted({2, 2, 3, 4, 4, static_cast<unsigned>(pf.thorough ? 1 : 0), 1, 4}));
+    const bool v2 = vf::g_decoder >= 2; // shapes / templates added later; files written for decoder 1 keep their meaning
+    unsigned fam = v2 ? static_cast<unsigned>(c.weighted({2, 2, 3, 4, 4, static_cast<unsigned>(pf.thorough ? 2 : 1), 1, 4, 3, 1}))
+                      : static_cast<unsigned>(c.weighted({2, 2, 3, 4, 4, static_cast<unsigned>(pf.thorough ? 1 : 0), 1, 4}));
     bool sparse = false;
+    bool pair = false;
     unsigned n = 0;
     switch (fam) {
+        case 8: // two or three borders with one or two keys each below one interior: one remove collapses the interior
+            n = 16 + c.range(0, 10);
+            sparse = true;
+            pair = true;
+            s.family = "collapse_pair";
+            fam = 7;
+            break;
+        case 9: // several interior nodes, one or two keys per border
+            n = 130 + c.range(0, 120);
+            sparse = true;
+            s.family = "sparse_interiors";
+            fam = 7;
+            break;
         case 0: n = 0; s.family = "empty"; break;
         case 1: n = 1; s.family = "one_key"; break;
         case 2: n = 14; s.family = "14_keys"; break;
@@ -445,7 +463,7 @@ inline Scenario decode(Chooser& c, const Profile& pf, vf::Stats& st, bool record
     // ---- race templates: a reader / point op on a stored key K against a writer sequence that frees, re-uses, splits or unlinks
     // exactly the slot / border of K (K2 = absent neighbour of K in the same border)
     bool templated = false;
-    if (!churn && !pf.inserters_only_new_keys && (pf.force_templates || c.chance(1, 3))) {
+    if (!churn && !pf.inserters_only_new_keys && (pf.force_templates || c.chance(pair ? 2 : 1, 3))) {
         templated = true;
         unsigned r = n == 0 ? 0 : c.range(0, n - 1);
         if (n != 0 && c.chance(1, 3)) { r = c.flip() ? 0 : n - 1; }
@@ -472,7 +490,7 @@ inline Scenario decode(Chooser& c, const Profile& pf, vf::Stats& st, bool record
             gen_range_op(o, pf.w_cursor > pf.w_scan ? true : (pf.w_cursor == 0 ? false : c.flip()));
             s.threads[0].push_back(o);
         } else {
-            switch (c.weighted({pf.w_get * 3, pf.w_put, pf.w_put_unique, pf.w_remove})) {
+            switch (c.weighted({pf.w_get * 3, pf.w_put, pf.w_put_unique, pair ? pf.w_remove * 6 : pf.w_remove})) {
                 case 0: s.threads[0].push_back(point(OpK::Get, K)); break;
                 case 1: s.threads[0].push_back(point(OpK::Put, K)); break;
                 case 2: s.threads[0].push_back(point(OpK::PutUnique, c.flip() ? K : K2)); break;
@@ -481,7 +499,18 @@ inline Scenario decode(Chooser& c, const Profile& pf, vf::Stats& st, bool record
             if (c.chance(1, 3)) { s.threads[0].push_back(point(OpK::Get, c.flip() ? K : K2)); }
         }
         // thread 1
-        switch (c.range(0, 9)) {
+        switch (v2 ? c.range(0, 12) : c.range(0, 9)) {
+            case 10: // a writer in the neighbouring border while K's border is emptied / unlinked / the interior above collapses
+                s.threads[1].push_back(point(c.flip() ? OpK::Put : OpK::Remove, n == 0 ? K2 : present_at(r + 1)));
+                break;
+            case 11:
+                s.threads[1].push_back(point(OpK::Remove, n == 0 ? K2 : present_at(r + 1)));
+                s.threads[1].push_back(point(OpK::Put, n == 0 ? K2 : present_at(r + 1)));
+                break;
+            case 12:
+                s.threads[1].push_back(point(OpK::Put, K2));
+                s.threads[1].push_back(point(OpK::Remove, n == 0 ? K2 : present_at(r + 1)));
+                break;
             case 0:
                 s.threads[1].push_back(point(OpK::Remove, K));
                 s.threads[1].push_back(point(OpK::Put, K2)); // takes the slot K just freed
@@ -663,6 +692,7 @@ inline Scenario decode(Chooser& c, const Profile& pf, vf::Stats& st, bool record
         }
     }
     s.max_id = id;
+    if (v2 && pf.conflict_bias && c.chance(1, 3)) { s.conflict_bias = true; }
     return s;
 }
 
@@ -899,6 +929,11 @@ inline vf::CaseResult run_scenario(const Profile& pf, const Scenario& sc, const 
             bodies.emplace_back([&ex, t] { ex.body(t); });
         }
         S.step_limit = 400000;
+#ifdef VF_ALLOC_TRACK
+        S.conflict_bias = false; // the access table would be charged to the case by the allocation oracle
+#else
+        S.conflict_bias = sc.conflict_bias;
+#endif
         S.clock = 0;
         sched::RevBytes rb(bytes.data(), bytes.size());
         sched::Outcome oc = S.run(std::move(bodies), rb);
